@@ -19,6 +19,7 @@ import os
 import re
 import shutil
 import tempfile
+from concurrent.futures import ThreadPoolExecutor
 from pathlib import Path
 
 import numpy as np
@@ -323,27 +324,31 @@ def run(ctx):
     # ---------------- (M) ----------------
     ctx.phase("model_checking")
     if q:
-        ctx.model_check("PinParse", "PinParse_quick.cfg", note="features 0..45 x 2..5 identifiers x chunk 2..6,19 x workers 1..2")
-        ctx.model_check("PinParse", "PinParse_quick_sched.cfg", note="features 0..8, chunk 2..3, workers 1..3: every interleaving")
-        ctx.model_check("PinParse", "PinParse_quick_schema.cfg", note="schema cross product, features 0..3")
+        runs = [("PinParse_quick.cfg", None, "features 0..45 x 2..5 identifiers x chunk 2..6,19 x workers 1..2", {}),
+                ("PinParse_quick_sched.cfg", None, "features 0..8, chunk 2..3, workers 1..3: every interleaving", {}),
+                ("PinParse_quick_schema.cfg", None, "schema cross product, features 0..2", {})]
     else:
-        ctx.model_check("PinParse", "PinParse_thorough.cfg", note="features 0..60 x 2..5 identifiers x chunk 2..20 x workers 1..2",
-                        timeout=3000)
-        ctx.model_check("PinParse", "PinParse_thorough_sched.cfg", note="features 0..14, chunk 2..4, workers 1..4: every interleaving",
-                        timeout=3000)
-        ctx.model_check("PinParse", "PinParse_thorough_schema.cfg", note="schema cross product, features 0..4, all optional-column subsets",
-                        timeout=3000)
-    ctx.model_check("PinParse", "PinParse_quick_err.cfg", note="missing required column / label 2, -3")
-    ctx.model_check("PinParse", "PinParse_asis.cfg", expect_violation="IdsTogether",
-                    note="chunking before 799639f: identifier columns split across column chunks")
-    ctx.model_check("PinParse", "PinParse_asis2.cfg", expect_violation="ResultIsDef",
-                    note="chunking before 799639f: no chunk fills the spectra frame, 'No objects to concatenate'")
-    ctx.model_check("PinParse", "PinParse_mut1.cfg", expect_violation="ResultIsDef", note="seeded fault: a single NaN feature is kept")
-    ctx.model_check("PinParse", "PinParse_mut2.cfg", expect_violation="ResultIsDef", note="seeded fault: case-sensitive lookup")
-    ctx.model_check("PinParse", "PinParse_mut3.cfg", expect_violation="ResultIsDef", note="seeded fault: label 0 is a target")
-    ctx.model_check("PinParse", "PinParse_mut4.cfg", expect_violation="ResultIsDef", note="seeded fault: spectrum key in file order")
-    r = ctx.model_check("PinParse", "PinParse_cov.cfg", coverage=True, note="action coverage")
-    ctx.require_actions(r, ["Classify", "MakeChunks", "Start", "ScanAny", "FinishAny", "Join", "Concat", "Build"])
+        runs = [("PinParse_thorough.cfg", None, "features 0..60 x 2..5 identifiers x chunk 2..20 x workers 1..2", {"timeout": 3000}),
+                ("PinParse_thorough_sched.cfg", None, "features 0..14, chunk 2..4, workers 1..4: every interleaving", {"timeout": 3000}),
+                ("PinParse_thorough_schema.cfg", None, "schema cross product, features 0..4, all optional-column subsets",
+                 {"timeout": 3000})]
+    runs += [("PinParse_quick_err.cfg", None, "missing required column / label 2, -3", {}),
+             ("PinParse_asis.cfg", "IdsTogether", "chunking before 799639f: identifier columns split across column chunks", {}),
+             ("PinParse_asis2.cfg", "ResultIsDef",
+              "chunking before 799639f: no chunk fills the spectra frame, 'No objects to concatenate'", {}),
+             ("PinParse_mut1.cfg", "ResultIsDef", "seeded fault: a single NaN feature is kept", {}),
+             ("PinParse_mut2.cfg", "ResultIsDef", "seeded fault: case-sensitive lookup", {}),
+             ("PinParse_mut3.cfg", "ResultIsDef", "seeded fault: label 0 is a target", {}),
+             ("PinParse_mut4.cfg", "ResultIsDef", "seeded fault: spectrum key in file order", {}),
+             ("PinParse_cov.cfg", None, "action coverage", {"coverage": True})]
+
+    def mc(run):
+        cfg, viol, note, kw = run
+        return ctx.model_check("PinParse", cfg, expect_violation=viol, note=note, workers=4, **kw)
+    with ThreadPoolExecutor(max_workers=4) as ex:          # independent TLC runs, 4 workers each
+        results = list(ex.map(mc, runs))
+    ctx.cov["model_runs"].sort(key=lambda m: [r[0] for r in runs].index(m["cfg"]))
+    ctx.require_actions(results[-1], ["Classify", "MakeChunks", "Start", "ScanAny", "FinishAny", "Join", "Concat", "Build"])
     # ---------------- (G) ----------------
     ctx.phase("generation")
     bases = []
@@ -389,10 +394,13 @@ def run(ctx):
     missing = [n for n in needed if not by_name.get(n)]
     if missing:
         raise MachineryError("no accepted trace to build the negative controls %s from" % missing)
+    allbad = []
     for name, lst in sorted(by_name.items()):
-        for j, b in enumerate(lst, 1):
-            b["tid"] = j
-        ctx.negative_controls("PinParseTrace", "Trace.cfg", lst, name=name)
+        allbad += lst
+    for j, b in enumerate(allbad, 1):
+        b["tid"] = j
+    ctx.negative_controls("PinParseTrace", "Trace.cfg", allbad,
+                          name="; ".join("%s x%d" % (n, len(v)) for n, v in sorted(by_name.items())))
     ctx.assume("pandas.read_csv parses the rendered decimal cells (multiples of 1/8) exactly and treats '', 'NaN' and 'NA' "
                "as missing; the spectrum-key cells are compared as text")
     ctx.assume("a column literally named 'charge' may be reported as a feature or as metadata (pin.py:192 looks the "
